@@ -194,6 +194,9 @@ def run_config(chk, facts):
                       "`replacement == false` edge; a REPLACE_TABLE entry is decoded without a dictionary")
     tp = chk.anchor("C18-d", TK_TABLE, facts.body(TK_TABLE))
     rep = [i for i in range(1, tp.argc + 1) if tp.local_name(i) == "replacement" and tp.local_ty(i) == "bool"]
+    if not rep:
+        bools = [i for i in range(1, tp.argc + 1) if tp.local_ty(i) == "bool"]
+        rep = bools if len(bools) == 1 else []       # renamed: the only bool parameter
     chk.anchor("C18-d", "bool parameter `replacement` of apply_table_patch", rep)
     nd = 0
     for bb, t in tp.calls():
